@@ -581,28 +581,47 @@ def clause_f(ctx: Context) -> None:
                               construct=norm(ap)[:160])
 
 
+def _block_reads(fn_node: ast.AST) -> Dict[str, List[ast.AST]]:
+    """value reads of `<x>._D` / `<x>._E` in a function, not counting shape/dtype reads and reads inside the statement that updates the very
+    same block (`state._D = assign(state._D, sel, ... state._D[sel] ...)` is the update of that block, not a computation from it)"""
+    parents_: Dict[int, ast.AST] = {}
+    for x in ast.walk(fn_node):
+        for ch in ast.iter_child_nodes(x):
+            parents_[id(ch)] = x
+    reads: Dict[str, List[ast.AST]] = {"_D": [], "_E": []}
+    for x in walk_no_nested(fn_node):
+        if isinstance(x, ast.Attribute) and x.attr in reads and isinstance(x.ctx, ast.Load):
+            pa = parents_.get(id(x))
+            if isinstance(pa, ast.Attribute) and pa.attr in ("dtype", "shape", "ndim"):
+                continue
+            st_ = x
+            while id(st_) in parents_ and not isinstance(st_, ast.stmt):
+                st_ = parents_[id(st_)]
+            if isinstance(st_, ast.Assign) and any(isinstance(t_, ast.Attribute) and t_.attr == x.attr for t_ in st_.targets):
+                continue
+            reads[x.attr].append(x)
+    return reads
+
+
 def clause_g(ctx: Context) -> None:
     """A fermionic Gaussian state is (D, E) = (<a^dagger a^T>, <a^dagger a^dagger^T>).  A simulation step that computes from the normal block D
     alone (probabilities, samples) is right only for states without pairing (E = 0), i.e. before any active gate: every function of the
-    simulation steps that reads the values of `_D` also reads `_E` (or goes through the state's own interface instead)."""
-    ctx.rule("C17g", "a step of the fermionic Gaussian simulator that reads the normal block D of the state also reads the pairing block E")
+    simulation steps that computes from the values of `_D` also reads `_E` (or goes through the state's own interface instead)."""
+    ctx.rule("C17g", "a step of the fermionic Gaussian simulator that computes from the normal block D of the state also reads the pairing block E")
+    fx = ast.parse("def p(state, sel):\n    k = state._D[sel]\n    return det(k)\n"
+                   "def u(state, sel, U):\n    state._D = assign(state._D, sel, state._D[sel] @ U)\n"
+                   "def b(state):\n    return state._D + state._E\n")
+    got = [(bool(r["_D"]), bool(r["_E"])) for r in (_block_reads(f_) for f_ in fx.body)]
+    if got != [(True, False), (False, False), (True, True)]:
+        raise AnalysisError("C17g: the rule does not behave on its inline fixture")
     idx = get_index(ctx.repo)
     m = idx.module(GAUSS_STEPS)
-    n = 0
+    n = n_fn = 0
     for fn in idx.all_functions(include_nested=True):
         if fn.module is not m:
             continue
-        parents_: Dict[int, ast.AST] = {}
-        for x in ast.walk(fn.node):
-            for ch in ast.iter_child_nodes(x):
-                parents_[id(ch)] = x
-        reads: Dict[str, List[ast.AST]] = {"_D": [], "_E": []}
-        for x in walk_no_nested(fn.node):
-            if isinstance(x, ast.Attribute) and x.attr in reads and isinstance(x.ctx, ast.Load):
-                pa = parents_.get(id(x))
-                if isinstance(pa, ast.Attribute) and pa.attr in ("dtype", "shape", "ndim"):
-                    continue
-                reads[x.attr].append(x)
+        n_fn += 1
+        reads = _block_reads(fn.node)
         if not reads["_D"] and not reads["_E"]:
             continue
         n += 1
@@ -615,7 +634,8 @@ def clause_g(ctx: Context) -> None:
                           f"{fn.name} computes from `{norm(reads[only][0])}` only and never reads the other moment block: the result is right for "
                           "states without pairing correlations only (before any Squeezing2 / IsingXX / non-passive Hamiltonian), and disagrees with "
                           "the Fock simulator after one", construct=norm(reads[only][0]))
-    ctx.require_floor("C17g functions of the fermionic Gaussian steps that read a moment block", n, 1)
+    ctx.require_floor("C17g functions of the fermionic Gaussian steps scanned", n_fn, 10)
+    ctx.obligation("C17g", f"{GAUSS_STEPS}|no step computes from one moment block only", not any(f.rule == "C17g" for f in ctx.findings), functions=n_fn, reading=n)
 
 
 def run(ctx: Context) -> None:
